@@ -490,7 +490,7 @@ pub const INTERFACE_FNS: &[&str] = &[
     "parse_keyword_with_tokens", "parse_keywords", "parse_one_of_keywords", "expect_one_of_keywords",
     "expect_keyword", "expect_keywords", "consume_token", "consume_tokens", "expect_token",
     "parse_comma_separated", "parse_comma_separated0", "parse_keyword_separated", "parse_parenthesized",
-    "is_parse_comma_separated_end", "parse_actions_list", "maybe_parse", "with_state", "parse_statements",
+    "is_parse_comma_separated_end", "parse_actions_list", "maybe_parse", "with_state", "parse_statements", "parse_statement_list",
     "parse_projection",
 ];
 
